@@ -21,7 +21,7 @@ use crate::simkit::cluster::Violation;
 use crate::simkit::menu::Menu;
 
 pub struct Shared {
-    pub visited: Vec<Mutex<HashMap<u128, (u16, u16)>>>,
+    pub visited: Vec<Mutex<HashMap<u128, Vec<(u16, u16)>>>>,
     pub states: AtomicU64,
     pub transitions: AtomicU64,
     pub replays: AtomicU64,
@@ -63,16 +63,18 @@ impl Shared {
         let mut g = self.visited[shard].lock().unwrap();
         match g.get_mut(&fp) {
             None => {
-                g.insert(fp, (depth, devs));
+                g.insert(fp, vec![(depth, devs)]);
                 self.states.fetch_add(1, Ordering::Relaxed);
                 true
             }
-            Some((d0, v0)) => {
-                if depth >= *d0 && devs >= *v0 {
+            Some(front) => {
+                // Pareto front of budgets the state was expanded with: skip only if some earlier
+                // expansion had at least as much depth AND deviation budget left
+                if front.iter().any(|(d0, v0)| *d0 <= depth && *v0 <= devs) {
                     false
                 } else {
-                    *d0 = (*d0).min(depth);
-                    *v0 = (*v0).min(devs);
+                    front.retain(|(d0, v0)| !(depth <= *d0 && devs <= *v0));
+                    front.push((depth, devs));
                     true
                 }
             }
